@@ -188,7 +188,7 @@ def random_pair(rng, idx):
     def prim(allow_dict=True):
         p = rng.choice(PRIMS)
         if allow_dict and p in ('string', 'bytes') and rng.chance(1, 3):
-            return f'{p} dict(D{rng.below(2)})'
+            return f'{p} dict(D{p[0].upper()}{rng.below(2)})'      # one dictionary per primitive type (finding C10-dict-shared-by-string-and-bytes)
         return p
 
     def ftype(owner_idx, is_b_only, leaf=False):
@@ -214,7 +214,8 @@ def random_pair(rng, idx):
         nb = rng.below(4) if rng.chance(2, 3) else 0
         for j in range(na + nb):
             t, _ = ftype(i, j >= na, leaf=s['dict'])
-            opt = rng.chance(1, 4) and not t.startswith('[')
+            # an optional field of dictionary-struct type does not compile (finding C10-optional-dict-struct-field)
+            opt = rng.chance(1, 4) and not t.startswith('[') and not any(x['name'] == t and x.get('dict') for x in structs)
             s['fields'].append((f'F{j}', t, opt))
         s['a'] = na
     for o in oneofs:
